@@ -5,6 +5,22 @@ VERIF = os.path.dirname(os.path.dirname(os.path.abspath(__file__)))
 BASELINE = "cd /repo && /venv/bin/python -m pytest -ra -q -p no:cacheprovider --timeout=900 --continue-on-collection-errors"
 
 CHECKS = {
+ 'C07': dict(level='fault_enumeration',
+   text='For each of the 469 registered decoders: full-context windows of individually in-domain events, with every subset of the window dropped, every single duplication, every insertion of an undecoded/unrelated record, lone NONE/ALL, 3- and 6-lookup windows with every dropped prefix, every enum member; thorough adds nesting/crossing with 8 composite outer windows and more word sets. The real pipeline must consume each history and render every trace.',
+   note='Trusted: frozen in-domain table mc/domains.json (generated once at the pinned commit by trial decoding, reviewed). Only omission/duplication/insertion faults of the stated windows are covered.',
+   technique='exhaustive omission/duplication/insertion fault enumeration over per-decoder context windows on the real TracesParser'),
+ 'C09': dict(level='exploration',
+   text='Complete product of per-position START word domains (numeric corner values; every enum member) x END tuples x lookups for each of the ~400 call-style decoders; every numeric token must render its own START word in every run, so a decoder printing another word fails in the runs where the words differ.',
+   note='Trusted: rendering set and token parser in mc/callstyle.py; symbolic tokens are not judged.',
+   technique='exhaustive enumeration of bounded argument products against a positional rendering oracle'),
+ 'C10': dict(level='exploration',
+   text='Every non-exempt BSD decoder x 1380 END tuples (all errno values 1..106, unknown/huge codes, return-word corners) x START tuples x lookups; errno precedence, exact code, success values from the END record only, call part independent of END, result part independent of START.',
+   note='Trusted: exempt list transcribed from the statement; error names are C18 business.',
+   technique='exhaustive enumeration of END-record products per decoder with a textual result oracle'),
+ 'C17': dict(level='exploration',
+   text='The decoder tables and the bundled code table are finite: enumerated completely (name occurs, qualifier bits clear, families disjoint, every _nocancel has its base); each twin pair is compared over the C09 product of argument tuples.',
+   note='Trusted: independent code-table parser mc/ref.py.',
+   technique='complete table enumeration plus exhaustive twin-pair differential over bounded argument products'),
  'C01': dict(level='exploration',
    text='from_kd_buf is a pure function of 64 bytes; the check enumerates completely the Hamming ball of radius 2 around base records, every value of every byte, every 16-bit value of each debug-id half, and all decode orders of <=3 over a pool of records sharing sub-fields, judging each against an independent slicing decoder and the algebraic clauses. 2^512 is not enumerable, so this is bounded exhaustive exploration of stated shapes.',
    note='Trusted: mc/ref.py:ref_decode. Values outside the enumerated shapes are not covered.',
